@@ -172,6 +172,38 @@ func CorpusHistories(scratch string, names map[string]bool) ([]*History, []strin
 			}
 			return nil
 		}, func(g *Genesis) { easyParams(g); g.Params.SlashRatio = 1 }},
+		// an option reaches 2/3 of the voting power and loses it again when a voter changes its choice:
+		// at the end of the window nobody holds 2/3, the proposal must be dropped and nothing applied
+		{"revote-away-from-majority", 3, 2, 13, func(s *Sim, h int64) []*TxSpec {
+			ph := func() []byte {
+				if len(s.H.WatchH) > 0 {
+					return s.H.WatchH[len(s.H.WatchH)-1]
+				}
+				return nil
+			}
+			switch h {
+			case 3:
+				a, b := s.params, s.params
+				a.SlashRatio, a.Version = 77, 2
+				b.SlashRatio, b.Version = 33, 2
+				t := s.TxProposal(s.Val(0), 4, 4, 10)
+				t.Prop.Options = []OptSpec{{Raw: a.JSON(true), Params: &a}, {Raw: b.JSON(true), Params: &b}}
+				return []*TxSpec{t}
+			case 4:
+				if ph() != nil {
+					return []*TxSpec{s.TxVote(s.Val(0), ph(), 0), s.TxVote(s.Val(1), ph(), 0)}
+				}
+			case 6:
+				if ph() != nil {
+					return []*TxSpec{s.TxVote(s.Val(1), ph(), 1)}
+				}
+			}
+			return nil
+		}, func(g *Genesis) {
+			easyParams(g)
+			g.Vals[0].Power, g.Vals[1].Power, g.Vals[2].Power = 10, 10, 10
+			g.Params.MinVotingPeriodBlocks, g.Params.MaxVotingPeriodBlocks, g.Params.LazyApplyingBlocks = 1, 6, 1
+		}},
 		// downtime: with window 10 and minimum 8 the third miss inside the window (blocks 4, 6, 8) is the
 		// one that takes the validator below the minimum: it must lose all stake in that very block
 		{"downtime-at-exact-threshold", 3, 2, 14, func(s *Sim, h int64) []*TxSpec {
